@@ -1560,6 +1560,10 @@ func (c *Conn) readHeader(b []byte, res *fasthttp.Response) error {
 
 	for len(b) > 0 {
 		b, err = dec.Next(hf, b)
+		if errors.Is(err, ErrNoField) {
+			break
+		}
+
 		if err != nil {
 			return err
 		}
